@@ -157,6 +157,11 @@ def _set_terms(f, e):
         return _set_terms(f, e.func.value)
     if isinstance(e, ast.Call) and isinstance(e.func, ast.Name) and e.func.id == 'set' and len(e.args) == 1:
         return _set_terms(f, e.args[0])
+    if isinstance(e, ast.Call) and isinstance(e.func, ast.Attribute) and e.func.attr == 'union' and e.args and not any(isinstance(a, ast.Starred) for a in e.args):
+        out = _set_terms(f, e.func.value)
+        for a in e.args:
+            out |= _set_terms(f, a)
+        return out
     if isinstance(e, ast.Set):
         return {'{' + u(x) + '}' for x in e.elts}
     return {u(e)}
@@ -173,7 +178,8 @@ def check_introductions(ctx, rep, f):
         if isinstance(st, ast.Expr) and isinstance(st.value, ast.Call) and isinstance(st.value.func, ast.Attribute) and st.value.func.attr == 'add' and st.value.args:
             ts = st.value.func.value
             sites.append((st, ts, st.value.args[0], {u(resolve_alias(g, ts)), u(ts)}))
-        elif isinstance(st, (ast.Assign, ast.AnnAssign)) and isinstance(st.value, ast.BinOp) and isinstance(st.value.op, ast.BitOr):
+        elif isinstance(st, (ast.Assign, ast.AnnAssign)) and ((isinstance(st.value, ast.BinOp) and isinstance(st.value.op, ast.BitOr)) or
+                                                             (isinstance(st.value, ast.Call) and isinstance(st.value.func, ast.Attribute) and st.value.func.attr == 'union')):
             terms = _set_terms(g, st.value)
             lits = [t for t in terms if t.startswith('{')]
             others = {t for t in terms if not t.startswith('{')}
@@ -185,8 +191,43 @@ def check_introductions(ctx, rep, f):
                 except SyntaxError:
                     continue
                 sites.append((st, st.targets[0] if isinstance(st, ast.Assign) else st.target, ne, set(others)))
+        else:
+            # the union is written where it is used:  GNFA(D.Q | {q_start, q_accept}, ...)  /  return NFA(N.Q | {q0}, ...)
+            inner = [x for x in ast.walk(st) if isinstance(x, ast.Call)] if isinstance(st, (ast.Return, ast.Expr, ast.Assign, ast.AnnAssign)) else []
+            for c0 in inner:
+                for a0 in list(c0.args) + [k.value for k in c0.keywords]:
+                    if (isinstance(a0, ast.BinOp) and isinstance(a0.op, ast.BitOr)) or (isinstance(a0, ast.Call) and isinstance(a0.func, ast.Attribute) and a0.func.attr == 'union'):
+                        terms = _set_terms(g, a0)
+                        lits = [t for t in terms if t.startswith('{')]
+                        others = {t for t in terms if not t.startswith('{')}
+                        if not lits or not others:
+                            continue
+                        for lit in lits:
+                            try:
+                                ne = ast.parse(lit[1:-1], mode='eval').body
+                            except SyntaxError:
+                                continue
+                            sites.append((st, a0, ne, set(others)))
+    ma = must_atoms(fx)
     for (st, target_set, name_expr, universe_terms) in sites:
         prov = _provenance(ctx, g, name_expr)
+        if prov is None and isinstance(name_expr, ast.Name):
+            # drawn in a retry loop written in place:  x = gen(); while x in U: x = gen()  -- at the site `x not in U` holds
+            defs = single_def(g, name_expr.id)
+            if len(defs) >= 2 and all(_provenance(ctx, g, d) is not None and _provenance(ctx, g, d)[0] == 'generator' for d in defs):
+                nid = cfg.n_of(st)
+                atoms = set(ma.get(nid, frozenset())) | {a[:4] for a in fx.guard_atoms(nid)}
+                tested = {a[2] for a in atoms if a[0] == 'in' and a[3] is False and a[1] == name_expr.id}
+                res0 = lambda t: u(resolve_alias(g, ast.parse(t, mode='eval').body)) if _parses(t) else t
+                need0 = {t for t in universe_terms if t != u(name_expr)}
+                tested_r = tested | {res0(t) for t in tested}
+                missing0 = [t for t in need0 if t not in tested_r and res0(t) not in tested_r and not (res0(t).endswith('.F') and (res0(t)[:-2] + '.Q') in tested_r)]
+                n += 1
+                if tested and not missing0:
+                    rep.holds(RULE + '.site', g, st, 'the name is redrawn until it is not in {} (retry loop written in place), which covers the set it joins'.format(sorted(tested)))
+                else:
+                    rep.violates(RULE + '.site', g, st, 'the name {} is drawn from a generator in a loop, but at this point it is not known to be outside {}'.format(name_expr.id, sorted(missing0 or need0)))
+                continue
         if prov is None:
             continue
         n += 1
